@@ -399,12 +399,13 @@ def char_class(spec):
 # sha1[:16] of the normalised source of each pinned function, as read when the model was written
 # (re-pinned for /repo HEAD 2a611aa: Expr::write, ExprKind::write, Ident::write, display_interpolation, SwitchCase::write,
 #  parser::maybe_aliased changed with the fix commits 95d15ad 1b7b9df 4d5b01d e945e0b c8b3817 2a611aa;
+#  ExprKind::write re-pinned for 212f897 (type of a named lambda parameter; types are outside the model);
 #  Stmt::write re-pinned for e3202e5 (alias guard of the Main arm, mirrored by FmtStmt.fmt_value_lines) and b4fb037: saturating indent arithmetic, the model counts indentation in nat)
 PINNED = {
     "needs_parenthesis": "7130b65cce8b7964",
     "write_within": "dd3053dbcfdc95d3",
     "Expr::write": "84933ce80c1edbd5",
-    "ExprKind::write": "92e8b5198df1a507",
+    "ExprKind::write": "fee7d177a5d1b74d",
     "Ident::write": "eb121fd380826b6f",
     "display_interpolation": "cd78c3583840b05d",
     "SwitchCase::write": "8307a1337cef4197",
